@@ -21,6 +21,8 @@ _REGISTRY = {
     'C16': ('vt.checks.unit_checks', 'C16'),
     'C17': ('vt.checks.unit_checks', 'C17'),
     'C18': ('vt.checks.e2e_checks', 'C18'),
+    'C19': ('vt.checks.pp_checks', 'C19'),
+    'C20': ('vt.checks.pp_checks', 'C20'),
 }
 
 
